@@ -432,3 +432,23 @@ Theorem ring_examples :
   den_root (RNode C [(Some (1, PInt 2), 1)] (RNext None (RNode C [] (RNext None (RNode C [(Some (1, PInt 1), 1)] RNil))))) = None /\
   den_root (RNode C [(None, 1)] (RNext None (RNode C [] RNil))) = Some ([(1, (0, None))], [(1, 0, PInt 1)]).
 Proof. cbv zeta. repeat split; reflexivity. Qed.
+
+(* non-vacuity of ring_denotation: cyclopropane with a branch, C1(N)CC=1 as tokens; every hypothesis holds *)
+Definition ex_ring : rtree :=
+  let C := Query.mkParsed None None None None [ESym (s2l "C")] None None None None None false in
+  let N := Query.mkParsed None None None None [ESym (s2l "N")] None None None None None false in
+  RNode C [(None, 1)] (RBranch None (RNode N [] RNil) (RNext None (RNode C [] (RNext None (RNode C [(Some (1, PInt 2), 1)] RNil))))).
+Theorem ring_denotation_example :
+  rok_tree ex_ring /\
+  den_root ex_ring = Some ([], [(1, 0, PInt 1); (2, 0, PInt 1); (3, 2, PInt 1); (3, 0, PInt 2)]) /\
+  distinct_pairs [] [(1, 0, PInt 1); (2, 0, PInt 1); (3, 2, PInt 1); (3, 0, PInt 2)] /\
+  Forall payload_valid [(1, 0, PInt 1); (2, 0, PInt 1); (3, 2, PInt 1); (3, 0, PInt 2)] /\
+  full_of_tokens (tok_rtree ex_ring) (atoms_rtree ex_ring) =
+  Ok ([(QElem 6 None (mkQX 0 false [] [] [] [] [] false), None); (QElem 7 None (mkQX 0 false [] [] [] [] [] false), None);
+       (QElem 6 None (mkQX 0 false [] [] [] [] [] false), None); (QElem 6 None (mkQX 0 false [] [] [] [] [] false), None)],
+      [mkSB 1 0 (mkQB [1] None) None; mkSB 2 0 (mkQB [1] None) None; mkSB 3 2 (mkQB [1] None) None; mkSB 3 0 (mkQB [2] None) None]).
+Proof.
+  split; [cbn; repeat split; try exact I; repeat (first [apply Forall_nil | apply Forall_cons]); try exact I; left; eexists; reflexivity|]. split; [reflexivity|]. split.
+  - cbn. repeat split; try lia; intros p H; repeat (destruct H as [H|H]; [subst p; cbn; lia|]); destruct H.
+  - split; [repeat constructor; eexists; reflexivity | vm_compute; reflexivity].
+Qed.
